@@ -4046,6 +4046,13 @@ def _walk_working_dir_paths(
     # Convert paths to strings for os.walk compatibility
 
     for dirpath, dirnames, filenames in os.walk(frompath):  # type: ignore[type-var]
+        # os.walk lists a symlink that points to a directory in dirnames; to
+        # git it is a single (file-like) entry, tracked or untracked as a link.
+        for name in list(dirnames):
+            if os.path.islink(os.path.join(dirpath, name)):  # type: ignore[call-overload]
+                dirnames.remove(name)
+                filenames.append(name)
+
         # Skip .git and below.
         if ".git" in dirnames:
             dirnames.remove(".git")
